@@ -83,11 +83,11 @@ def build_kwargs(desc):
             elif t == 'Tags':
                 out[k] = Tags(*a)
             elif t == 'UserData':
-                out[k] = UserData(json.dumps(a))
+                out[k] = UserData(a if v.get('o') else json.dumps(a))   # built from the object or from its JSON text
             elif t == 'MeasurementData':
-                out[k] = MeasurementData(json.dumps(a))
+                out[k] = MeasurementData(a if v.get('o') else json.dumps(a))   # built from the object or from its JSON text
             elif t == 'LayoutData':
-                out[k] = LayoutData(json.dumps(a))
+                out[k] = LayoutData(a if v.get('o') else json.dumps(a))   # built from the object or from its JSON text
             elif t == 'ReservationInfo':
                 out[k] = ReservationInfo(**a)
             elif t == 'Location':
